@@ -109,7 +109,7 @@ fn check(case: &Styled2, obs: &mut Obs) {
                             fill_pts += 1;
                         }
                     } else if sa.contains(q) && sty.w > 0 && sty.stroke {
-                        exp.insert((x, y), C::STROKE);
+                        exp.insert((x, y), sty.stroke_color::<C>());
                         stroke_pts += 1;
                     }
                 }
@@ -136,6 +136,7 @@ fn check(case: &Styled2, obs: &mut Obs) {
             obs.class_if(cw && ch, "fill-collapsed-both");
             obs.class_if(nondeg && sty.w > sw.max(sh), "stroke-wider-than-shape");
             obs.class_if(fill_pts > 0 && stroke_pts > 0, "both-colours-painted");
+            obs.class_if(sty.same, "stroke-colour-equals-fill-colour");
             if d.map != exp {
                 obs.fail("draw-follows-fill_area/stroke_area", format!("draw() on draw_iter-only target vs areas: {}", map_diff(&d.map, &exp)));
             }
@@ -167,7 +168,7 @@ fn check(case: &Styled2, obs: &mut Obs) {
                         obs.fail("inside-stroke-stays-inside", format!("painted {:?} outside the shape", k));
                     }
                 }
-                if sty.al == 2 {
+                if sty.al == 2 && !sty.same {
                     if let Some((k, _)) = d.map.iter().find(|(k, c)| **c == C::STROKE && p.contains(Point::new(k.0, k.1))) {
                         obs.fail("outside-stroke-stays-outside", format!("stroke colour at {:?} inside the shape", k));
                     }
@@ -182,8 +183,12 @@ fn run_part(run: &mut Run) {
     let tier = run.tier;
     run.sweep_vec(
         "closed-shapes",
-        "Rectangle/Circle/Ellipse/RoundedRectangle sizes 0..N (incl. strokes wider than the shape) x S(W) styles; W=6 quick, 10 thorough",
-        || product(&shapes(tier), &styles(tier.pick(6, 10))),
+        "Rectangle/Circle/Ellipse/RoundedRectangle sizes 0..N (incl. strokes wider than the shape) x S(W) styles plus stroke colour == fill colour x widths 1..=4 (6) x 3 alignments; W=6 quick, 10 thorough",
+        || {
+            let mut st = styles(tier.pick(6, 10));
+            st.extend(styles_same_color(tier.pick(4, 6)));
+            product(&shapes(tier), &st)
+        },
         check,
     );
 }
@@ -197,7 +202,7 @@ fn main() {
         parts: |_| vec![PartSpec::new("all", "verif")],
         run_part,
         required_classes: |_| {
-            vec!["rect", "circle", "ellipse", "rrect", "fill-only", "stroke-only", "fill+stroke", "transparent", "fill-collapsed-width-only", "fill-collapsed-height-only", "fill-collapsed-both", "stroke-wider-than-shape", "both-colours-painted"]
+            vec!["rect", "circle", "ellipse", "rrect", "fill-only", "stroke-only", "fill+stroke", "transparent", "fill-collapsed-width-only", "fill-collapsed-height-only", "fill-collapsed-both", "stroke-wider-than-shape", "both-colours-painted", "stroke-colour-equals-fill-colour"]
         },
         crash_is_verdict: false,
     })
